@@ -107,8 +107,7 @@ def check_case(case, ctx):
                 ctx.violation("pe.via_config", f"{type(e).__name__}: {e}", case)
                 return
             exp_stamp = want["compile_stamps"][1]
-            # (the xorencoded flag is not maintained on the Guardrails route and is no artefact of the image: not compared there)
-            facts = (c.architecture, c.pe_compile_stamp, c.pe_export_stamp, c.xorencoded if not par.get("guarded") else par["xorenc"])
+            facts = (c.architecture, c.pe_compile_stamp, c.pe_export_stamp, c.xorencoded)
             if par.get("guarded") and c.guardrails is None:
                 ctx.violation("pe.via_config", "Guardrails-protected configuration extracted without guard metadata", case)
                 return
